@@ -7,7 +7,9 @@
    W <frames> <root> <n> {<ref> <p|P|o|f> <inh> <k> <kid>...}   page walkers
    T <root> <n> {<ref> <leaf> <k> <kid>...}              name tree walker
    O <root> <first|-> <n> {<ref> <first|-> <next|-> <fail>}   outline walker
-   X <obj> <obj> <obj> <rawLen> <datahex>                xref stream check + decode *)
+   X <obj> <obj> <obj> <rawLen> <datahex>                xref stream check + decode
+   G <ref> <nx> {<num> <F|S<s>|D<sobj>>} <nm> {<num> <sobj>}   object stream get (ObjStmGet.get_in)
+     sobj: v | r<n> | s<id>[:<dep>]*  *)
 open Wire
 open Datatypes
 
@@ -174,6 +176,40 @@ let run id kind fs =
        let l = Stdlib.List.sort compare (Stdlib.List.map ent x) in
        Printf.printf "%s ok %s %s\n" id (match e with None -> "-" | Some _ -> "e")
          (match l with [] -> "-" | _ -> Stdlib.String.concat "," (Stdlib.List.map snd l)))
+  | "G", r :: nx :: rest ->
+    let sobj t =
+      match t.[0] with
+      | 'v' -> ObjStmGet.SVal
+      | 'r' -> ObjStmGet.SRef (n_of_string (tail1 t))
+      | 's' ->
+        (match Stdlib.List.filter (fun x -> x <> "") (Stdlib.String.split_on_char ':' (tail1 t)) with
+         | id :: parts -> ObjStmGet.SStm (n_of_string id, Stdlib.List.map n_of_string parts)
+         | [] -> failwith "bad stream")
+      | _ -> failwith "bad sobj" in
+    let rec gox k fs acc =
+      if k = 0 then (Stdlib.List.rev acc, fs) else
+        match fs with
+        | n :: e :: tl ->
+          let e' = match e.[0] with
+            | 'F' -> ObjStmGet.EFree
+            | 'S' -> ObjStmGet.EInStm (n_of_string (tail1 e))
+            | 'D' -> ObjStmGet.EDirect (sobj (tail1 e))
+            | _ -> failwith "bad entry" in
+          gox (k - 1) tl ((n_of_string n, e') :: acc)
+        | _ -> failwith "bad G case" in
+    let (xr, rest) = gox (int_of_string nx) rest [] in
+    (match rest with
+     | nm :: rest ->
+       let rec gom k fs acc =
+         if k = 0 then Stdlib.List.rev acc else
+           match fs with
+           | n :: o :: tl -> gom (k - 1) tl ((n_of_string n, sobj o) :: acc)
+           | _ -> failwith "bad G members" in
+       let mem = gom (int_of_string nm) rest [] in
+       (match ObjStmGet.get_in xr mem (n_of_string r) with
+        | Res.Ok _ -> Printf.printf "%s ok\n" id
+        | Res.Err c -> Printf.printf "%s %s\n" id (cls_str c))
+     | _ -> failwith "bad G case")
   | _ -> Printf.printf "%s badcase\n" id
 
 let () =
